@@ -457,7 +457,23 @@ def c18_cases(tier, rng):
                     yield {'kind': 'c18-op', 'n': n, 'edges': edges, 'ops': [['between', st, en, ks, ke]]}
             for keep in subsets[:4]:
                 yield {'kind': 'c18-op', 'n': n, 'edges': edges, 'ops': [['keep', keep]]}
+    # sequences of two bypasses around a hub: job 0 requires u upstreams and is required by d downstreams (some of
+    # which also require an upstream directly); bypass the hub, then any other job (operations must compose)
+    for u in range(1, 4):
+        for d in range(1, 4):
+            n = 1 + u + d
+            ups, downs = list(range(1, 1 + u)), list(range(1 + u, n))
+            base = [(0, x) for x in ups] + [(y, 0) for y in downs]
+            extras = [(y, x) for y in downs for x in ups]
+            for mask in range(1 << len(extras)) if len(extras) <= 4 else [rng.getrandbits(len(extras)) for _ in range(12)]:
+                edges = base + [e for i, e in enumerate(extras) if mask >> i & 1]
+                for second in range(1, n):
+                    yield {'kind': 'c18-op', 'n': n, 'edges': [list(e) for e in edges], 'ops': [['bypass', 0], ['bypass', second]]}
     k = 300 if tier == 'quick' else 6000
+    for _ in range(k):
+        n = rng.randint(5, 8)
+        edges = random_dag(rng, n, rng.choice([0.3, 0.5]))
+        yield {'kind': 'c18-op', 'n': n, 'edges': edges, 'ops': [['bypass', v] for v in rng.sample(range(n), rng.randint(2, 3))]}
     for _ in range(k):
         n = rng.randint(4, 9 if tier == 'quick' else 12)
         edges = random_dag(rng, n, rng.choice([0.2, 0.35, 0.5]))
@@ -833,6 +849,12 @@ def rt_cases(prop):
             # an empty nested scheduler in the middle of a chain is still one job of its parent
             S('top', [J('x', duration=2), S('empty', []), J('y')], [(1, 0), (2, 1)]),
             S('top', [J('x', duration=2), S('mid', [S('empty', [])], critical=True), J('y')], [(1, 0), (2, 1)]),
+            # a (display) Watch shared by a tree whose nested scheduler has a timeout and starts late
+            S('top', [J('first', duration=3), S('in', [J('x', duration=1)], timeout=2)], [(1, 0)], watch=True),
+            S('top', [J('first', duration=3), S('in', [J('x', duration=9)], timeout=2), J('y')], [(1, 0), (2, 1)], watch=True),
+            # the graph is edited between two runs of the same scheduler (a requirement is added: c now waits for b)
+            S('top', [J('a'), J('b', duration=3), J('c')], [(2, 0)], rerun=True, rerun_edge=['top', 2, 1]),
+            S('top', [J('a'), J('b', duration=3), J('c'), J('d')], [(1, 0), (3, 2)], rerun=True, rerun_edge=['top', 2, 1], window=2),
             # a tolerated failure first, a critical one later, along chains of critical / non-critical schedulers
             S('top', [S('n1', [S('n2', [J('t', outcome='raise'), J('x', duration=2, critical=True, outcome='raise')],
                                  critical=True)], critical=True), J('y', duration=5)], critical=True),
@@ -856,6 +878,8 @@ def rt_cases(prop):
             sp = RT.gen_tree(r2)
             if i % 2:
                 sp['salt'] = str(r2.randrange(1000))       # another set iteration order
+            if i % 5 == 2:
+                sp['watch'] = True                         # a Watch shared by the tree (display aid: changes nothing)
             flat = all(m['type'] == 'job' for m in sp['members'])
             if i % 4 == 3 and prop not in ('C06', 'C10', 'C13') and (prop != 'C14' or flat):
                 # the same tree run a second time ("in any run of any scheduler"); the second run is judged.
@@ -863,6 +887,11 @@ def rt_cases(prop):
                 # nothing more"); for C14 only without nesting (the jobs of a nested scheduler keep the state of
                 # the previous run until the nested run begins: what the API says then is about that earlier run)
                 sp['rerun'] = True
+                n_ = len(sp['members'])
+                free = [(a, b_) for a in range(n_) for b_ in range(a) if (a, b_) not in [tuple(e) for e in sp['edges']]]
+                if free and r2.random() < 0.5:
+                    a, b_ = r2.choice(free)
+                    sp['rerun_edge'] = ['top', a, b_]      # and one more requirement added between the two runs
             if prop == 'C06':
                 sp2, flipped = RT.c06_pair(sp, r2)
                 if flipped:
